@@ -109,7 +109,18 @@ pub fn cks_spelling() -> impl Strategy<Value = (u8, bool)> {
 
 /// A well-formed sentence with every field randomised and the numbering given.
 pub fn spec_with_numbering(n: Num, k: Num, id: Option<Num>) -> impl Strategy<Value = Spec> {
-    (tag_block(), prop::bool::weighted(0.2), address(), channel(), payload_field(120), tail(), cks_spelling(), any::<bool>()).prop_map(
+    // mostly realistic payload sizes; now and then one that makes the body longer than 384 bytes
+    let payload = prop_oneof![
+        24 => payload_field(120),
+        1 => (alphabet_string(700), 0u8..6).prop_map(|(mut p, f)| {
+            while p.len() < 372 {
+                let n = p.len();
+                p.push(ALPHABET[(n * 7) & 63]);
+            }
+            (p, f)
+        }),
+    ];
+    (tag_block(), prop::bool::weighted(0.2), address(), channel(), payload, tail(), cks_spelling(), any::<bool>()).prop_map(
         move |(tag, dollar, addr, channel, (payload, fill), tail, (cks_digits, cks_lower), zero_fill)| Spec {
             tag,
             delim: if dollar { b'$' } else { b'!' },
@@ -249,6 +260,20 @@ pub fn adversarial_events(max_len: usize) -> impl Strategy<Value = Vec<Ev>> {
                 let ev = Ev::Frag { n, k, id, payload, fill: 0, decode: k == n && decode_last };
                 match defects[(k - 1) as usize % defects.len()] {
                     0 => {} // lost
+                    3 => {
+                        // retransmitted with two payload characters transposed: same XOR checksum, same
+                        // numbering, different data - a receiver that recognises repeats by checksum is fooled
+                        if let Ev::Frag { payload, .. } = &ev {
+                            if payload.len() >= 2 && payload[0] != payload[1] {
+                                evs.push(ev.clone());
+                                let mut p2 = payload.clone();
+                                p2.swap(0, 1);
+                                evs.push(Ev::Frag { n, k, id, payload: p2, fill: 0, decode: false });
+                                continue;
+                            }
+                        }
+                        evs.push(ev);
+                    }
                     1 => {
                         evs.push(ev.clone());
                         evs.push(ev); // duplicated
@@ -288,10 +313,18 @@ pub fn events_to_input(evs: &[Ev]) -> Input {
 /// fragments, any prior history, noise between the fragments.
 pub fn inorder_group_history() -> impl Strategy<Value = Input> {
     let payload = prop_oneof![
-        5 => message_chars(LenMode::Standard),
-        1 => message_chars(LenMode::Any),
-        2 => (alphabet_string(120), 0u8..6),
-        1 => (alphabet_string(380), 0u8..6),
+        10 => message_chars(LenMode::Standard),
+        2 => message_chars(LenMode::Any),
+        4 => (alphabet_string(120), 0u8..6),
+        2 => (alphabet_string(380), 0u8..6),
+        // longer than the no-allocator build can hold (it must reject; std and alloc must not care)
+        1 => (alphabet_string(1200), 0u8..6).prop_map(|(mut p, f)| {
+            while p.len() < 390 {
+                let n = p.len();
+                p.push(ALPHABET[(n * 11) & 63]);
+            }
+            (p, f)
+        }),
     ];
     let prior = prop_oneof![
         3 => Just(Vec::<Ev>::new()),
